@@ -374,6 +374,24 @@ Definition counts_against_limits (s : nstate) : bool :=
 Definition active_caps (ns : list (nstate * rl)) : list rl :=
   map snd (filter (fun n => counts_against_limits (fst n)) ns).
 
+(* ---- Cluster.MarkForDeletion / UnmarkForDeletion / node removal: which tracked nodes are marked ---- *)
+
+Inductive mop :=
+| MMark (ids : list name)      (* Cluster.MarkForDeletion(ids...): a disruption command starts *)
+| MUnmark (ids : list name)    (* Cluster.UnmarkForDeletion(ids...): the command is rolled back *)
+| MRemove (id : name).         (* the node disappears: Cluster.DeleteNode + DeleteNodeClaim *)
+
+Record mst := mkM { m_tracked : list name; m_marked : list name }.
+
+(* both loops skip an id that is not tracked and go on with the rest of the list *)
+Definition mstep (s : mst) (o : mop) : mst :=
+  match o with
+  | MMark l => mkM (m_tracked s) (fold_left (fun acc x => if mem x (m_tracked s) then sadd x acc else acc) l (m_marked s))
+  | MUnmark l => mkM (m_tracked s) (fold_left (fun acc x => if mem x (m_tracked s) then srem x acc else acc) l (m_marked s))
+  | MRemove x => mkM (srem x (m_tracked s)) (srem x (m_marked s))
+  end.
+Definition mrun (tracked : list name) (h : list mop) : mst := fold_left mstep h (mkM tracked []).
+
 (* Scheduler.remainingResources at the start of a pass: limits minus capacity of every active node *)
 Definition remaining0 (limits : rl) (existing : list rl) : rl := fold_left subtract existing limits.
 
